@@ -12,6 +12,45 @@ def rel(path):
     return re.sub(r"^/repo/", "", path or "")
 
 
+class Sub:
+    """proxy used when a property depends on a clause that another property's rule set already decides"""
+
+    def __init__(self, ctx, rid, desc=None):
+        self._c = ctx
+        self._rid = rid
+        self.F = ctx.F
+        self.tier = ctx.tier
+        self.prop = ctx.prop
+        if desc:
+            ctx.rule(rid, desc)
+
+    def rule(self, rid, desc):
+        self._c.rules.setdefault(self._rid, "")
+        if desc not in self._c.rules[self._rid]:
+            self._c.rules[self._rid] = (self._c.rules[self._rid] + " | " if self._c.rules[self._rid] else "") + "%s: %s" % (rid, desc)
+
+    def ok(self, rid, instance, detail=""):
+        self._c.ok(self._rid, "%s:%s" % (rid, instance), detail)
+
+    def violation(self, rid, key, msg, site=None, instance=None):
+        self._c.violation(self._rid, "%s:%s" % (rid, key), msg, site, "%s:%s" % (rid, instance or key))
+
+    def note(self, rid, msg):
+        self._c.note(self._rid, "%s %s" % (rid, msg))
+
+    def count(self, label, n):
+        self._c.count("%s/%s" % (self._rid, label), n)
+
+    def floor(self, rid, label, n, minimum):
+        self._c.floor(self._rid, "%s/%s" % (self._rid, label), n, minimum)
+
+    def error(self, rid, msg):
+        self._c.error(self._rid, "%s %s" % (rid, msg))
+
+    def assume(self, text):
+        self._c.assume(text)
+
+
 class Ctx:
     def __init__(self, prop, tier, facts, cg=None):
         self.prop = prop
@@ -59,6 +98,11 @@ class Ctx:
     def assume(self, text):
         if text not in self.assumptions:
             self.assumptions.append(text)
+
+    def sub(self, rid, desc=None):
+        """a view of this context that files everything a borrowed rule set reports under the single rule id `rid`
+        (instances and keys are prefixed with the borrowed rule's own id)"""
+        return Sub(self, rid, desc)
 
     # ---- finishing
     def finish(self):
